@@ -270,7 +270,15 @@ func runConversation(l *wsLab, tl tunnelLab, cv conversation) (viol string) {
 	if tl.Subproto {
 		d.Subprotocols = []string{"chat.v1"}
 	}
-	cc, resp, err := d.Dial("ws://"+l.Addr+"/ws/session?room=1", hdr)
+	var cc *websocket.Conn
+	var resp *http.Response
+	err := dialRetry(func() (e error) {
+		cc, resp, e = d.Dial("ws://"+l.Addr+"/ws/session?room=1", hdr)
+		return e
+	})
+	if err != nil && strings.Contains(err.Error(), envPrefix) {
+		return err.Error()
+	}
 	if err != nil {
 		st := ""
 		if resp != nil {
@@ -437,12 +445,18 @@ func TestC20Tunnel(t *testing.T) {
 			}
 		})
 		if err != nil {
+			if envProblem(err.Error()) {
+				return
+			}
 			rt.Fatalf("harness: %v", err)
 		}
 		defer l.Close()
 		for si := 0; si < sessions; si++ {
 			cv := genConversation(rt, maxSteps)
 			viol := runConversation(l, tl, cv)
+			if envProblem(viol) {
+				return
+			}
 			labels, nt := tunnelLabels(tl, cv)
 			sub.Case(map[string]any{"lab": tl, "session": si, "conversation": cv}, nt, labels...)
 			if viol != "" {
